@@ -17,6 +17,7 @@ thread_local! {
     static FREES: Cell<u64> = const { Cell::new(0) };
     static LIVE: Cell<i64> = const { Cell::new(0) };
     static MAX_SINGLE: Cell<u64> = const { Cell::new(0) };
+    static ZERO_SIZED: Cell<u64> = const { Cell::new(0) };
 }
 
 const NPROT: usize = 64;
@@ -32,6 +33,9 @@ pub struct Counters {
     pub frees: u64,
     pub live: i64,
     pub max_single: u64,
+    /// Calls of `alloc` with a zero-sized layout (undefined behaviour for
+    /// `GlobalAlloc::alloc`; Rust's collections never do it).
+    pub zero_sized: u64,
 }
 
 impl Counters {
@@ -42,6 +46,7 @@ impl Counters {
             frees: self.frees - before.frees,
             live: self.live - before.live,
             max_single: self.max_single,
+            zero_sized: self.zero_sized - before.zero_sized,
         }
     }
 }
@@ -53,6 +58,7 @@ pub fn counters() -> Counters {
         frees: FREES.with(|c| c.get()),
         live: LIVE.with(|c| c.get()),
         max_single: MAX_SINGLE.with(|c| c.get()),
+        zero_sized: ZERO_SIZED.with(|c| c.get()),
     }
 }
 
@@ -98,6 +104,9 @@ fn is_protected(p: usize) -> bool {
 
 unsafe impl GlobalAlloc for Tracking {
     unsafe fn alloc(&self, l: Layout) -> *mut u8 {
+        if l.size() == 0 {
+            let _ = ZERO_SIZED.try_with(|c| c.set(c.get() + 1));
+        }
         let p = System.alloc(l);
         if !p.is_null() {
             let _ = ALLOCS.try_with(|c| c.set(c.get() + 1));
